@@ -81,7 +81,7 @@ NoFile == [ex |-> FALSE, lines |-> <<>>]
 Rec(fs) == Replay(fs.cur.lines)
 
 ------------------------------------------------------------------------------
-(* The machine.  m = [mem, buf, closed, fs, fage, aage, n, fail, clk, out, panic, err]        *)
+(* The machine.  m = [mem, buf, closed, fs, fage, aage, n, fail, failop, clk, out, panic, err] *)
 (*   mem  = [alive, lc, ec, qc, lv (leaving), off (offset), fh, bw (handles non-nil)]          *)
 (*   buf  = the live bufio.Writer: [data (lines not yet handed to the OS), err (sticky)]       *)
 (*   closed = s.fh is non-nil but refers to a closed file (only when ~NilH)              *)
@@ -98,7 +98,7 @@ Bd(m, op, f, ok, wlen) ==
 
 \* a real file operation: numbered, may be failed by injection, may fail naturally (~can)
 DoOp(m, op, f, can, newfs, wlen) ==
-  LET ok == can /\ m.fail # m.n + 1
+  LET ok == can /\ m.fail # m.n + 1 /\ m.failop # op \o ":" \o f
       m1 == [m EXCEPT !.n = @ + 1, !.fs = IF ok THEN newfs ELSE @, !.err = ~ok]
   IN  [m1 EXCEPT !.out = Append(@, Bd(m1, op, f, ok, wlen))]
 
@@ -217,15 +217,19 @@ ProcShutdown(m) ==
   IN  IF m1.panic \/ ~m1.mem.fh THEN m1 ELSE DoOp(m1, "close", "cur", ~m1.closed, m1.fs, 0)
 
 \* w = the world record [S, clk, ...] (see the variables)
-Machine(w, fail) ==
+\* a fault WINDOW: an input record may carry failop = "op:file" (e.g. "rename:tmp"): every operation of that kind
+\* fails while the input is handled (the resource is unavailable for a while), then the fault is gone
+FailOp(act) == IF "failop" \in DOMAIN act THEN act.failop ELSE ""
+
+Machine(w, fail, failop) ==
   [mem |-> w.S.mem, buf |-> w.S.buf, closed |-> w.S.closed, fs |-> w.S.fs, fage |-> w.S.fage, aage |-> w.S.aage, n |-> w.S.n,
-   fail |-> IF fail = 0 THEN 0 ELSE w.S.n + fail, clk |-> w.clk, out |-> <<>>, panic |-> FALSE, err |-> FALSE]
+   fail |-> IF fail = 0 THEN 0 ELSE w.S.n + fail, failop |-> failop, clk |-> w.clk, out |-> <<>>, panic |-> FALSE, err |-> FALSE]
 
 ProcOf(w, act) ==
-  CASE act.a = "feed"     -> ProcEvent(Machine(w, act.fail), act)
-    [] act.a = "tick"     -> UpdateClock(Machine(w, act.fail))
-    [] act.a = "leave"    -> ProcLeave(Machine(w, act.fail))
-    [] act.a = "shutdown" -> ProcShutdown(Machine(w, act.fail))
+  CASE act.a = "feed"     -> ProcEvent(Machine(w, act.fail, FailOp(act)), act)
+    [] act.a = "tick"     -> UpdateClock(Machine(w, act.fail, FailOp(act)))
+    [] act.a = "leave"    -> ProcLeave(Machine(w, act.fail, FailOp(act)))
+    [] act.a = "shutdown" -> ProcShutdown(Machine(w, act.fail, FailOp(act)))
 
 ------------------------------------------------------------------------------
 (* Observations: what the harness records *)
